@@ -206,9 +206,9 @@ def alias_programs(ctx):
         spec.gen_reply_table(rng, f, n_names=2)
         # every code-generation branch of the interface glue: an interface written for Empty under a contract with custom
         # types (bridging arms), one with associated custom types, one with fixed ones
-        f["parts"][1]["custom_mode"] = "empty"
-        a["parts"][1]["custom_mode"] = "empty"
-        a["parts"][2]["custom_mode"] = ["assoc", "fixed"][i % 2]
+        spec.set_custom_mode(f, f["parts"][1], "empty")
+        spec.set_custom_mode(a, a["parts"][1], "empty")
+        spec.set_custom_mode(a, a["parts"][2], ["assoc", "fixed"][i % 2])
         progs += [a, b, c, d, e, f]
     for k, p in enumerate(progs):
         p["_render_kw"] = {"sv": ALIAS}
